@@ -3,6 +3,7 @@ package checks
 import (
 	"fmt"
 	"math/rand"
+	"sync"
 	"testing"
 
 	"verif/mon"
@@ -45,6 +46,25 @@ func TestC02(t *testing.T) {
 	rec.Require("recv-callbacks", "honest-recv-expected-accept", "replay-after-accept-rejected")
 	pktHistories(rec, mon.Scale(48, 1600), func(i int, c *world.PktCfg) { c.PAdv, c.PClean = 0.25, 0.14 },
 		func() []world.Monitor { return []world.Monitor{&props.C02{R: rec}} })
+	// concurrent relayers into one block producer, checked with porcupine
+	rec.Require("concurrent-histories", "concurrent-multi-tx-blocks")
+	var cwg sync.WaitGroup
+	for run := 0; run < mon.Scale(12, 300); run++ {
+		cwg.Add(1)
+		go func(run int) {
+			defer cwg.Done()
+			defer func() {
+				if r := recover(); r != nil {
+					rec.Violate("panic", map[string]string{"history": "concurrent"}, fmt.Sprint(r), nil)
+				}
+			}()
+			concurrentRelayers(rec, mon.Seed(), run)
+		}(run)
+		if run%8 == 7 {
+			cwg.Wait()
+		}
+	}
+	cwg.Wait()
 	setExit(rec.Finish())
 }
 
